@@ -27,7 +27,7 @@ func main() {
 	histOut := fs.String("hist", "", "where to write the generated histories")
 	out := fs.String("out", "trace.txt", "trace file")
 	statsOut := fs.String("stats", "", "json statistics")
-	deadline := fs.Duration("deadline", 2*time.Second, "how long a handler call / a drain may take")
+	deadline := fs.Duration("deadline", 3*time.Second, "how long a handler call / a drain may take")
 	quiet := fs.Duration("quiet", 40*time.Millisecond, "quiet period that ends a forwarder run")
 	fs.Parse(os.Args[2:])
 
@@ -82,6 +82,9 @@ func main() {
 			if it.Kind == "S" {
 				stats["submissions"]++
 				stats["kind_"+it.Sub.Label]++
+				if a, b := validIndep(it.Sub); a && b && len(it.Sub.R) > 0 {
+					stats["wellformed_"+it.Sub.Label]++
+				}
 			}
 		}
 		stats["histories"]++
